@@ -31,11 +31,17 @@ VARIABLES sc
 Init == sc = [depth |-> 0]
 Pick == sc.depth = 0 /\
   \E depth \in 1..3, pos \in {"first", "mid", "last"}, l1 \in Locs, l2 \in Locs, l3 \in Locs,
-     decoy \in {"none", "cwd", "other"}, cwd \in Cwds, rel \in BOOLEAN, quoted \in BOOLEAN, again \in {"no", "twice", "diamond"} :
+     decoy \in {"none", "cwd", "other"}, cwd \in Cwds, rel \in BOOLEAN, quoted \in BOOLEAN, again \in {"no", "twice", "diamond"},
+     missing \in BOOLEAN :
        /\ (depth < 2 => l2 = "same") /\ (depth < 3 => l3 = "same")
        /\ (again = "diamond" => depth >= 2 /\ l1 = "same" /\ l2 = "same")    \* main reaches b.asm both through a.asm and directly
        /\ (again # "no" => decoy = "none" /\ ~quoted /\ cwd \in {"proj", "other"})
-       /\ sc' = [depth |-> depth, pos |-> pos, l1 |-> l1, l2 |-> l2, l3 |-> l3, decoy |-> decoy, cwd |-> cwd, rel |-> rel, quoted |-> quoted, again |-> again]
+       \* missing: the deepest included file exists ONLY as a decoy (in the working directory or in an unsearched one):
+       \* unless the decoy happens to lie in a searched directory, the include must be refused
+       \* (only with the decoy in a directory no lookup consults, so that "refused" is the single acceptable outcome)
+       /\ (missing => decoy # "none" /\ again = "no" /\ ~quoted /\ (decoy = "other" \/ cwd \in {"other", "."}))
+       /\ sc' = [depth |-> depth, pos |-> pos, l1 |-> l1, l2 |-> l2, l3 |-> l3, decoy |-> decoy, cwd |-> cwd, rel |-> rel, quoted |-> quoted, again |-> again,
+                 missing |-> missing]
 Next == Pick
 Spec == Init /\ [][Next]_sc
 
@@ -53,10 +59,11 @@ MainLines == LET b == Body(0) i == IncLine(sc.l1, Names[1])
 F1Lines == IF sc.depth >= 2 THEN <<Body(1)[1], IncLine(sc.l2, Names[2])>> \o SubSeq(Body(1), 2, 4) ELSE Body(1)
 F2Lines == IF sc.depth >= 3 THEN Body(2) \o <<IncLine(sc.l3, Names[3])>> ELSE Body(2)
 DecoyDir == IF sc.decoy = "cwd" THEN (IF sc.cwd = "." THEN "." ELSE sc.cwd) ELSE "other"
-Fs == { [dir |-> "proj", name |-> "main.asm", lines |-> MainLines],
-        [dir |-> D1, name |-> Names[1], lines |-> F1Lines] }
-      \cup (IF sc.depth >= 2 THEN { [dir |-> D2, name |-> Names[2], lines |-> F2Lines] } ELSE {})
-      \cup (IF sc.depth >= 3 THEN { [dir |-> D3, name |-> Names[3], lines |-> Body(3)] } ELSE {})
+Present(k) == ~(sc.missing /\ k = sc.depth)
+Fs == { [dir |-> "proj", name |-> "main.asm", lines |-> MainLines] }
+      \cup (IF Present(1) THEN { [dir |-> D1, name |-> Names[1], lines |-> F1Lines] } ELSE {})
+      \cup (IF sc.depth >= 2 /\ Present(2) THEN { [dir |-> D2, name |-> Names[2], lines |-> F2Lines] } ELSE {})
+      \cup (IF sc.depth >= 3 /\ Present(3) THEN { [dir |-> D3, name |-> Names[3], lines |-> Body(3)] } ELSE {})
 \* decoys: same names, other content, in a directory that must not be consulted (unless it is a real candidate)
 Decoys == IF sc.decoy = "none" THEN {}
           ELSE { [dir |-> DecoyDir, name |-> Names[j], lines |-> Decoy(j)] : j \in 1..sc.depth }
@@ -70,5 +77,6 @@ Expected == FlattenFile(AllFiles, Main, IncDirs, 4)
 LineTexts(f) == [j \in 1..Len(f.lines) |-> f.lines[j].text]
 Export == sc.depth # 0 =>
   PrintT(<<"SC", sc, {<<f.dir, f.name, LineTexts(f)>> : f \in AllFiles}, Expected>>)
-NonEmpty == sc.depth # 0 => Expected # {}
+NonEmpty == sc.depth # 0 => (sc.missing <=> Expected = {})
+\* the missing-file scenarios do contain refusals (non-vacuity), checked by the harness on the exported sets
 =============================================================================
